@@ -182,6 +182,15 @@ def st_skew_cone(draw, m=None, max_extra=2):
 
 
 @st.composite
+def st_rescaled_cone(draw, m=None, max_extra=2):
+    """Unit-normal cone whose rows are rescaled by 0.25..4: same cone, different (non-unit) matrix."""
+    base = draw(st_diag_cone(m, max_extra))
+    W = cone_W(base) if base["kind"] == "diag" else np.eye(base["m"])
+    f = [draw(st.sampled_from([0.25, 0.5, 1.0, 2.0, 4.0])) for _ in range(len(W))]
+    return {"kind": "W", "W": (W * np.array(f)[:, None]).tolist()}
+
+
+@st.composite
 def st_diag_cone(draw, m=None, max_extra=3):
     """Unit-normal cone around the diagonal, half-angles 5..85 degrees, K = m..m+max_extra facets."""
     if m is None:
